@@ -7,4 +7,4 @@ python3 tools/py2lean.py "${SSJ_REPO:-/repo}" lean/SSJ/Gen >/dev/null
 python3 tools/py2lean2.py "${SSJ_REPO:-/repo}" lean/SSJ/Gen >/dev/null
 cd lean
 lake build driver
-lake build SSJ.Props.All SSJ.Proofs.GenLoops SSJ.Proofs.GenLoops2
+lake build SSJ.Props.All SSJ.Proofs.GenLoops SSJ.Proofs.GenLoops2 SSJ.Proofs.GenLoops3
